@@ -72,7 +72,8 @@ def _judge(args):
         try:
             ctx = Ctx(prop, "thorough", repo=Repo(tmp))
             mod.check(ctx)
-            ctx.check_floors()
+            if not ctx.findings:
+                ctx.check_floors()
             known = {k["key"] for k in load_known().get("known", [])}
             new = [f for f in ctx.findings if f.key not in known]
             return dict(idx=idx, outcome="alarm" if new else "silent",
